@@ -1,3 +1,4 @@
+import OtelVerif.Gen.OtlpSchemaX
 import OtelVerif.Lemmas.C08
 import OtelVerif.Lemmas.C08Json
 import OtelVerif.Lemmas.C08Dec
@@ -85,7 +86,7 @@ canonical (`Conforms`, up to the `-0.0` of plain double fields) is checked on th
 (`C08/total/not-a-fixpoint-*`) and on the model by the differential, not proved here.  Totality of the model decoder
 is by construction (`decMsg` is a total terminating function on every byte list); absence of panics/hangs of the Go
 code is observed by the harness on the malformed streams. -/
-theorem C08_total_fixpoint_partial (S : Schema) (D : List Val) (hwf : WF S D = true) (m : Nat) (b : Bytes) (v : Val)
+theorem superseded_total_fixpoint_partial (S : Schema) (D : List Val) (hwf : WF S D = true) (m : Nat) (b : Bytes) (v : Val)
     (_hd : decode S D m b = some v) (hc : Conforms S m v) (hlen : (encode S m v).length < 2 ^ 63) :
     decode S D m (encode S m v) = some v ∧
     ∀ v', decode S D m (encode S m v) = some v' → encode S m v' = encode S m v := by
@@ -167,23 +168,149 @@ theorem parseInt_dec (T : Txt) (h : DecLaws T) (signed : Bool) (w n : Nat)
   unfold parseInt
   split
   · next ds heq => exact absurd heq (h.dec_nosign n ds)
+  · next ds heq => exact absurd heq (h.dec_noplus n ds)
   · simp [h.undec_dec, hn]
 
-/-- NOTE: holds by `rfl` — the model's `readLeaf` reads `.num t` and `.str t` through ONE branch, i.e. the clause is true by
-construction of the model; its content is that the model then agrees with the real readers on both spellings, which is what the
-`i64num` / `i64str` / tree-fuzz differential streams check, and `C08_json_readers_typed` pins the helper (`json.ReadInt64/ReadUint64`).
-**64-bit integers as strings or as numbers — same result** (`json.ReadInt64/ReadUint64`: the `NumberValue` and the
-`StringValue` branch), for every text. -/
-theorem C08_json_int64_variants (S : Schema) (T : Txt) (ty : Ty) (t : List Nat)
-    (hty : ty = .u64 ∨ ty = .i64 ∨ ty = .fixed64 ∨ ty = .sfixed64) :
-    readLeaf S T ty (.num t) = readLeaf S T ty (.str t) := by
-  rcases hty with h | h | h | h <;> subst h <;> rfl
+/-- **64-bit integers as strings or as numbers — same result** (`json.ReadInt64/ReadUint64`, `pdata/internal/json/number.go`).
+Round 2: the model now has the TWO branches of the code — `NumberValue → iter.ReadInt64/ReadUint64` (jsoniter's digit loop
+`parseNum`, with the library's own overflow test) and `StringValue → strconv.ParseInt/ParseUint` (`parseInt`) — so this is no
+longer `rfl`.  For each of the four 64-bit types and EVERY text `t`: if the STRING spelling `"t"` is accepted and `t` is
+also a legal JSON number token (`jsonIntLit`: optional `-`, then `0` or a digit string without leading zero — the texts
+that can be written both ways), the NUMBER spelling `t` is accepted with the same result.  (The former statement "for every
+text, equal" is false for the code as it is: see `C08_json_int64_variants_alltext_fails`.) -/
+theorem C08_json_int64_variants (S : Schema) (ffmt : Nat → List Nat) (fparse : List Nat → Option Nat) (ty : Ty) (t : List Nat)
+    (hty : ty = .u64 ∨ ty = .i64 ∨ ty = .fixed64 ∨ ty = .sfixed64) (hlit : jsonIntLit t = true) (x : Val)
+    (hs : readLeaf S (mkTxtF ffmt fparse) ty (.str t) = some x) :
+    readLeaf S (mkTxtF ffmt fparse) ty (.num t) = some x := by
+  rcases hty with h | h | h | h <;> subst h <;> simp only [readLeaf, Option.map_eq_some_iff] at hs ⊢ <;>
+    obtain ⟨n, hn, hx⟩ := hs
+  · exact ⟨n, parseNum_of_parseInt _ _ false 64 t n (by decide) hlit hn, hx⟩
+  · exact ⟨n, parseNum_of_parseInt _ _ true 64 t n (by decide) hlit hn, hx⟩
+  · exact ⟨n, parseNum_of_parseInt _ _ false 64 t n (by decide) hlit hn, hx⟩
+  · exact ⟨n, parseNum_of_parseInt _ _ true 64 t n (by decide) hlit hn, hx⟩
 
-/-- … and both spellings of a 64-bit value that the marshaler can produce decode to that value. -/
+/-- the same for the 32-bit readers (`json.ReadInt32/ReadUint32`) -/
+theorem C08_json_int32_variants (S : Schema) (ffmt : Nat → List Nat) (fparse : List Nat → Option Nat) (ty : Ty) (t : List Nat)
+    (hty : ty = .u32 ∨ ty = .i32 ∨ ty = .fixed32) (hlit : jsonIntLit t = true) (x : Val)
+    (hs : readLeaf S (mkTxtF ffmt fparse) ty (.str t) = some x) :
+    readLeaf S (mkTxtF ffmt fparse) ty (.num t) = some x := by
+  rcases hty with h | h | h <;> subst h <;> simp only [readLeaf, Option.map_eq_some_iff] at hs ⊢ <;>
+    obtain ⟨n, hn, hx⟩ := hs
+  · exact ⟨n, parseNum_of_parseInt _ _ false 32 t n (by decide) hlit hn, hx⟩
+  · exact ⟨n, parseNum_of_parseInt _ _ true 32 t n (by decide) hlit hn, hx⟩
+  · exact ⟨n, parseNum_of_parseInt _ _ false 32 t n (by decide) hlit hn, hx⟩
+
+/-- non-vacuity of the two theorems above: `-9223372036854775808` is a JSON integer literal the string branch accepts -/
+example : jsonIntLit (str "-9223372036854775808") = true ∧
+    readLeaf otlp (mkTxtF (fun _ => []) (fun _ => none)) .i64 (.str (str "-9223372036854775808")) = some (.num (2 ^ 63)) := by
+  constructor <;> decide +kernel
+
+/-- … and `4294967295` for the 32-bit readers -/
+example : jsonIntLit (str "4294967295") = true ∧
+    readLeaf otlp (mkTxtF (fun _ => []) (fun _ => none)) .u32 (.str (str "4294967295")) = some (.num (2 ^ 32 - 1)) := by
+  constructor <;> decide +kernel
+
+/-- OBSERVATION (not a violation of the property, which speaks of 64-bit integers): the statement "for EVERY text the two
+spellings give the same result" is false for the code as it is, in both directions — (a) jsoniter's overflow test
+(`value*10+d < value` after wrap-around) misses `27670116110564327420 > 2^64`: the NUMBER is accepted as
+`9223372036854775804` while the STRING is a range error; (b) `strconv.ParseInt` accepts a leading `+` and leading zeros,
+which are not JSON numbers.  Kernel-checked witnesses; the harness replays them on the real readers (`intspell` block). -/
+theorem C08_json_int64_variants_alltext_fails :
+    ¬ (∀ (t : List Nat), readLeaf otlp (mkTxtF (fun _ => []) (fun _ => none)) .u64 (.num t)
+        = readLeaf otlp (mkTxtF (fun _ => []) (fun _ => none)) .u64 (.str t)) := by
+  intro h
+  have := h (str "27670116110564327420")
+  revert this
+  decide +kernel
+
+/-- **The NUMBER branch is exact on every in-range literal** (jsoniter's digit loop, whose overflow test is incomplete, never
+mis-reads a number that fits): for every JSON natural-number literal `t` (`0` or digits without leading zero) of value `n < 2^64`,
+`json.ReadUint64` on the number token `t` returns `n`; and for `n < 2^63`, `json.ReadInt64` returns `n` on `t` and `-n` on `-t`. -/
+theorem C08_json_int64_number_exact (S : Schema) (T : Txt) (t : List Nat) (n : Nat) (hl : natLit t = true)
+    (hv : undecDigits t = some n) :
+    (n < 2 ^ 64 → readLeaf S T .u64 (.num t) = some (.num n)) ∧
+    (n < 2 ^ 63 → readLeaf S T .i64 (.num t) = some (.num n) ∧
+      readLeaf S T .i64 (.num (45 :: t)) = some (.num ((2 ^ 64 - n) % 2 ^ 64))) := by
+  have hns := natLit_noSign t hl
+  constructor
+  · intro hn
+    have hj := jiterUint_of_undec 64 t n hl hv hn
+    simp only [readLeaf, parseNum]
+    split
+    · exact absurd rfl (hns.1 _)
+    · simp [hj]
+  · intro hn
+    have hj := jiterUint_of_undec 64 t n hl hv (by omega)
+    constructor
+    · simp only [readLeaf, parseNum]
+      split
+      · exact absurd rfl (hns.1 _)
+      · have : ¬ (n ≥ 2 ^ (64 - 1)) := by omega
+        simp [hj, this]
+    · have : ¬ (n > 2 ^ (64 - 1)) := by omega
+      simp [readLeaf, parseNum, hj, this]
+
+/-- non-vacuity: `18446744073709551615` is such a literal -/
+example : natLit (str "18446744073709551615") = true ∧ undecDigits (str "18446744073709551615") = some (2 ^ 64 - 1) := by
+  constructor <;> decide +kernel
+
+/-- **Both spellings of every 64-bit integer literal give that integer** — the clause of the property, for ARBITRARY literals (not
+only the marshaler's own text): for every JSON natural-number literal `t` of value `n`, `n < 2^64` ⇒ the `uint64` readers return
+`n` for the number `t` and for the string `"t"`; `n < 2^63` ⇒ the `int64` readers return `n` for `t` / `"t"` and `-n` for `-t` / `"-t"`
+(number branch: jsoniter; string branch: strconv — two different functions). -/
+theorem C08_json_int64_literal_agree (S : Schema) (ffmt : Nat → List Nat) (fparse : List Nat → Option Nat) (t : List Nat) (n : Nat)
+    (hl : natLit t = true) (hv : undecDigits t = some n) :
+    (n < 2 ^ 64 → readLeaf S (mkTxtF ffmt fparse) .u64 (.num t) = some (.num n) ∧
+                  readLeaf S (mkTxtF ffmt fparse) .u64 (.str t) = some (.num n)) ∧
+    (n < 2 ^ 63 → (readLeaf S (mkTxtF ffmt fparse) .i64 (.num t) = some (.num n) ∧
+                   readLeaf S (mkTxtF ffmt fparse) .i64 (.str t) = some (.num n)) ∧
+                  (readLeaf S (mkTxtF ffmt fparse) .i64 (.num (45 :: t)) = some (.num ((2 ^ 64 - n) % 2 ^ 64)) ∧
+                   readLeaf S (mkTxtF ffmt fparse) .i64 (.str (45 :: t)) = some (.num ((2 ^ 64 - n) % 2 ^ 64)))) := by
+  have hns := natLit_noSign t hl
+  have hstr : ∀ (signed : Bool), n < (if signed then 2 ^ 63 else 2 ^ 64) →
+      parseInt (mkTxtF ffmt fparse) signed 64 t = some n := by
+    intro signed hn
+    unfold parseInt
+    split
+    · exact absurd rfl (hns.1 _)
+    · exact absurd rfl (hns.2 _)
+    · simp only [mkTxtF, hv]
+      cases signed <;> simp at hn ⊢ <;> omega
+  constructor
+  · intro hn
+    have hj := jiterUint_of_undec 64 t n hl hv hn
+    refine ⟨?_, by simp [readLeaf, hstr false (by simpa using hn)]⟩
+    simp only [readLeaf, parseNum]
+    split
+    · exact absurd rfl (hns.1 _)
+    · simp [hj]
+  · intro hn
+    have hj := jiterUint_of_undec 64 t n hl hv (by omega)
+    refine ⟨⟨?_, by simp [readLeaf, hstr true (by simpa using hn)]⟩, ?_, ?_⟩
+    · simp only [readLeaf, parseNum]
+      split
+      · exact absurd rfl (hns.1 _)
+      · have : ¬ (n ≥ 2 ^ (64 - 1)) := by omega
+        simp [hj, this]
+    · have : ¬ (n > 2 ^ (64 - 1)) := by omega
+      simp [readLeaf, parseNum, hj, this]
+    · have : n ≤ 2 ^ (64 - 1) := by omega
+      simp [readLeaf, parseInt, mkTxtF, hv, this]
+
+/-- non-vacuity: `9223372036854775807` (and hence `-9223372036854775807`) is such a literal -/
+example : natLit (str "9223372036854775807") = true ∧ undecDigits (str "9223372036854775807") = some (2 ^ 63 - 1) := by
+  constructor <;> decide +kernel
+
+/-- … and both spellings of EVERY 64-bit value, written as the marshaler writes it (unsigned / signed decimal), decode to
+that value — through the two different branches. -/
 theorem C08_json_int64_value (S : Schema) (T : Txt) (h : DecLaws T) (n : Nat) (hn : n < 2 ^ 64) :
-    readLeaf S T .u64 (.num (T.dec n)) = some (.num n) ∧ readLeaf S T .u64 (.str (T.dec n)) = some (.num n) := by
-  have := parseInt_dec T h false 64 n (by simpa using hn)
-  simp [readLeaf, this]
+    (readLeaf S T .u64 (.num (T.dec n)) = some (.num n) ∧ readLeaf S T .u64 (.str (T.dec n)) = some (.num n)) ∧
+    (readLeaf S T .i64 (.num (sdec T 64 n)) = some (.num n) ∧ readLeaf S T .i64 (.str (sdec T 64 n)) = some (.num n)) := by
+  have h1 := parseInt_dec T h false 64 n (by simpa using hn)
+  have h2 := parseNum_dec' T h false 64 n (by decide) (by simpa using hn)
+  have h3 := parseInt_sdec T h 64 n (by decide) hn
+  have h4 := parseNum_sdec T h 64 n (by decide) hn
+  simp [readLeaf, h1, h2, h3, h4]
 
 /-- **Enum values as numbers or as names — same result** (`json.ReadEnumValue`), for every enum of every schema:
 the name of a value and its decimal number decode to the same stored value. -/
@@ -192,7 +319,7 @@ theorem C08_json_enum_variants (S : Schema) (T : Txt) (h : DecLaws T) (e : Nat) 
     (hf : en.values.find? (fun p => str p.1 == str name) = some (name, val)) (hv : val < 2 ^ 31) :
     readLeaf S T (.enum e) (.str (str name)) = some (.num val) ∧
     readLeaf S T (.enum e) (.num (T.dec val)) = some (.num val) := by
-  have := parseInt_dec T h true 32 val (by simpa using hv)
+  have := parseNum_dec' T h true 32 val (by decide) (by simpa using hv)
   simp [readLeaf, enumByName, he, hf, this]
 
 set_option maxRecDepth 100000 in
@@ -390,14 +517,129 @@ theorem C08_txt_laws (ffmt : Nat → List Nat) (fparse : List Nat → Option Nat
     TxtLaws (mkTxtF ffmt fparse) where
   undec_dec := undec_dec
   dec_nosign := dec_nosign
+  dec_noplus := dec_noplus
+  jnum_dec := jiter_dec
   fparse_ffmt := h.fparse_ffmt
   fparse_nan := h.fparse_nan
   fparse_pinf := h.fparse_pinf
   fparse_ninf := h.fparse_ninf
-  unb64_b64 := b64dec_b64enc
+  unb64_b64 := b64Read_b64enc
   unhex_hex := hexDec_hexEnc
   hex_length := hexEnc_length
   hex_noquote := hexEnc_noquote
+
+/-! ## the non-float text leaves, as the code does them: nothing assumed (ids in hex, bytes in base64) -/
+
+/-- **Trace/span/profile ids in JSON, as `pdata/internal/data/{traceid,spanid,profileid,bytesid}.go` do it**, for an id type of ANY
+size `n` and every `n`-byte id `p` (all-zero included): (1) `UnmarshalJSON(MarshalJSON p) = p` — the zero id through `""`, any
+other through its `2n` LOWER-case hex digits; (2) the same with the literal quotes `MarshalJSON` returns; (3) UPPER-case digits are
+accepted with the same result (`hex.Decode`); (4) a non-empty text is REJECTED when `len/2 ≠ n` (too short, too long), when its
+length is odd, or when it holds a non-hex byte; (5) the model's id reader composed with the model's id writer (canonical form:
+zero id ≡ empty) is the identity — `readLeaf` is `idUnmarshalJSON` by `readLeaf_id_eq`. No hypothesis about a text codec. -/
+theorem C08_hexid_roundtrip (n : Nat) (p : List Nat) (hl : p.length = n) (hb : bytesOk p = true) :
+    idUnmarshalJSON n (idMarshalJSON p) = some p ∧
+    idUnmarshalJSON n (34 :: idMarshalJSON p ++ [34]) = some p ∧
+    idUnmarshalJSON n ((idMarshalJSON p).map hexUp) = some p ∧
+    (∀ t, (stripQuotes t).isEmpty = false →
+      ((stripQuotes t).length / 2 ≠ n ∨ (stripQuotes t).length % 2 = 1 ∨ ∃ c ∈ stripQuotes t, hexVal c = none) →
+      idUnmarshalJSON n t = none) ∧
+    (∀ (S : Schema) (ffmt : Nat → List Nat) (fparse : List Nat → Option Nat),
+      readLeaf S (mkTxtF ffmt fparse) (.id n) (leafJson (mkTxtF ffmt fparse) (.id n) (.bytes (if allZero p then [] else p)))
+        = some (.bytes (if allZero p then [] else p))) := by
+  have hrt := idJSON_roundtrip n p hl hb
+  refine ⟨hrt, ?_, ?_, ?_, ?_⟩
+  · -- quoted
+    have : idUnmarshalJSON n (34 :: idMarshalJSON p ++ [34]) = idUnmarshalJSON n (idMarshalJSON p) := by
+      have hs : stripQuotes (idMarshalJSON p) = idMarshalJSON p := by
+        unfold idMarshalJSON; split
+        · rfl
+        · exact hexEnc_noquote p
+      simp only [idUnmarshalJSON, stripQuotes_quoted, hs]
+    rw [this]; exact hrt
+  · -- upper case
+    by_cases hz : allZero p = true
+    · have : (idMarshalJSON p).map hexUp = idMarshalJSON p := by simp [idMarshalJSON, hz]
+      rw [this]; exact hrt
+    · have hm : idMarshalJSON p = hexEnc p := by simp [idMarshalJSON, hz]
+      have hs : stripQuotes ((hexEnc p).map hexUp) = (hexEnc p).map hexUp := by
+        apply stripQuotes_noquote
+        cases p with
+        | nil => simp [hexEnc]
+        | cons x xs => simp [hexEnc, hexChar_up_ne_quote]
+      have hs0 : stripQuotes (hexEnc p) = hexEnc p := hexEnc_noquote p
+      rw [hm] at hrt ⊢
+      simp only [idUnmarshalJSON, hs, hs0, List.isEmpty_map, List.length_map, hexDec_map_hexUp] at hrt ⊢
+      exact hrt
+  · -- rejections
+    intro t hne hbad
+    simp only [idUnmarshalJSON, hne, Bool.false_eq_true, if_false]
+    rcases hbad with h | h | ⟨c, hc, hv⟩
+    · have : n ≠ (stripQuotes t).length / 2 := fun hh => h hh.symm
+      simp [this]
+    · split
+      · rfl
+      · exact hexDec_odd _ h
+    · split
+      · rfl
+      · cases hd : hexDec (stripQuotes t) with
+        | none => rfl
+        | some b => have := hexDec_hexchars _ b hd c hc; simp [hv] at this
+  · intro S ffmt fparse
+    have : leafJson (mkTxtF ffmt fparse) (.id n) (.bytes (if allZero p then [] else p)) = .str (idMarshalJSON p) := by
+      unfold idMarshalJSON
+      by_cases hz : allZero p = true <;> simp [hz, leafJson, mkTxtF, hexEnc]
+    rw [this, readLeaf_id_eq, hrt]; rfl
+
+
+/-- … instantiated at the REGENERATED id sizes (`Gen.OtlpSchemaX.idTypes`: TraceID 16, SpanID 8, ProfileID 16) -/
+theorem C08_hexid_roundtrip_otlp (ty : String) (n : Nat) (_h : (ty, n) ∈ Gen.OtlpSchemaX.idTypes) (p : List Nat)
+    (hl : p.length = n) (hb : bytesOk p = true) : idUnmarshalJSON n (idMarshalJSON p) = some p :=
+  (C08_hexid_roundtrip n p hl hb).1
+
+/-- non-vacuity: a span id with a single non-zero byte, and the zero trace id -/
+example : ("data.SpanID", 8) ∈ Gen.OtlpSchemaX.idTypes ∧ idMarshalJSON [0, 0, 0, 0, 0, 0, 0, 171] = str "00000000000000ab" ∧
+    idUnmarshalJSON 8 (str "00000000000000AB") = some [0, 0, 0, 0, 0, 0, 0, 171] ∧
+    idUnmarshalJSON 16 (idMarshalJSON (List.replicate 16 0)) = some (List.replicate 16 0) := by decide +kernel
+
+/-- **base64, as the reader does it** — for EVERY byte string, no length bound: `DecodeString(EncodeToString b) = b`; `\r`/`\n` are
+ignored wherever they stand; a text whose length (without them) is not a multiple of four — in particular an UNPADDED one — is
+rejected; so is any character outside the std alphabet, in particular the url-safe `-` and `_`; and the model's `bytes` reader is
+exactly this function on the string content (`null` ↦ empty). -/
+theorem C08_base64_roundtrip (b : List Nat) (hb : bytesOk b = true) :
+    b64Read (b64enc b) = some b ∧
+    (∀ pre post, b64Read (pre ++ 10 :: post) = b64Read (pre ++ post) ∧ b64Read (pre ++ 13 :: 10 :: post) = b64Read (pre ++ post)) ∧
+    (∀ t, (t.filter (fun c => c != 10 && c != 13)).length % 4 ≠ 0 → b64Read t = none) ∧
+    (∀ t c, c ∈ t → c ≠ 10 → c ≠ 13 → c ≠ 61 → b64val c = none → b64Read t = none) ∧
+    (b64val 45 = none ∧ b64val 95 = none ∧ b64val 32 = none) ∧
+    (∀ (S : Schema) (ffmt : Nat → List Nat) (fparse : List Nat → Option Nat) (t : List Nat),
+      readLeaf S (mkTxtF ffmt fparse) .bytes (.str t) = (b64Read t).map .bytes) ∧
+    (∀ (S : Schema) (ffmt : Nat → List Nat) (fparse : List Nat → Option Nat),
+      readLeaf S (mkTxtF ffmt fparse) .bytes (leafJson (mkTxtF ffmt fparse) .bytes (.bytes b)) = some (.bytes b)) := by
+  refine ⟨b64Read_b64enc b hb, ?_, ?_, ?_, by decide, ?_, ?_⟩
+  · intro pre post
+    constructor <;> simp [b64Read, List.filter_append, List.filter_cons]
+  · intro t hlen
+    cases hd : b64Read t with
+    | none => rfl
+    | some out => exact absurd (b64dec_len _ out hd) hlen
+  · intro t c hc h1 h2 h3 hv
+    cases hd : b64Read t with
+    | none => rfl
+    | some out =>
+      rcases b64Read_chars t out hd c hc with h | h | h | h
+      · exact absurd h h1
+      · exact absurd h h2
+      · exact absurd h h3
+      · simp [hv] at h
+  · intro S ffmt fparse t; rfl
+  · intro S ffmt fparse
+    simp [readLeaf, leafJson, mkTxtF, b64Read_b64enc b hb]
+
+
+/-- non-vacuity / the observed reader behaviours, evaluated: padded accepted, unpadded / url-safe / padding-in-the-middle rejected,
+`\n` ignored also inside the padding, non-zero trailing bits tolerated -/
+example : b64Read (str "QUI=") = some [65, 66] ∧ b64Read (str "QUI") = none ∧ b64Read (str "-_-_") = none ∧
+    b64Read (str "QQ==QUJD") = none ∧ b64Read [81, 81, 61, 10, 61] = some [65] ∧ b64Read (str "QR==") = some [65] := by decide +kernel
 
 /-- JSON round trip for OTLP with the concrete codecs: the only assumption left is the float text law. -/
 theorem C08_json_roundtrip_otlp_concrete (ffmt : Nat → List Nat) (fparse : List Nat → Option Nat) (h : FloatLaws ffmt fparse)
@@ -412,11 +654,11 @@ theorem C08_json_int64_extremes (S : Schema) (ffmt : Nat → List Nat) (fparse :
       readLeaf S (mkTxtF ffmt fparse) .u64 (.num (decDigits n)) = some (.num n) ∧
       readLeaf S (mkTxtF ffmt fparse) .i64 (.str (sdec (mkTxtF ffmt fparse) 64 n)) = some (.num n) := by
   intro n hn
-  have hd : DecLaws (mkTxtF ffmt fparse) := ⟨undec_dec, dec_nosign⟩
+  have hd : DecLaws (mkTxtF ffmt fparse) := ⟨undec_dec, dec_nosign, dec_noplus, jiter_dec⟩
   have hlt : n < 2 ^ 64 := by
     simp only [List.mem_cons, List.mem_nil_iff, or_false] at hn
     rcases hn with h | h | h | h <;> subst h <;> decide
-  exact ⟨(C08_json_int64_value S _ hd n hlt).1, by simp [readLeaf, parseInt_sdec _ hd 64 n (by decide) hlt]⟩
+  exact ⟨(C08_json_int64_value S _ hd n hlt).1.1, (C08_json_int64_value S _ hd n hlt).2.2⟩
 
 
 /-! ## malformed ids are rejected (never written past the destination) -/
@@ -605,6 +847,52 @@ field (`droppedLinksCount` into `DroppedEventsCount`), reads an enum with `ReadI
 theorem C08_json_readers_typed : readersOk otlp Gen.OtlpSchema.readers = true := by decide +kernel
 
 
+set_option maxRecDepth 100000 in
+/-- **Unknown members are skipped by every reader** (round 2; tie for the `fromJ` branch `if !(keys.any …) then fromJ … tl`):
+regenerated per reader — the `default:` clause of the key switch is exactly `iter.Skip()` on the callback's iterator and the
+callback's only `return` is the trailing `return true` (a reader that stops at, or does not consume, an unknown member fails
+here statically; dynamically the `mixed` variant stream adds unknown members to every message). One entry per message. -/
+theorem C08_json_readers_skip_unknown :
+    List.all Gen.OtlpSchemaX.readerDefaults (fun r => r.2.1 == "skip" && r.2.2) = true ∧
+    List.map (·.1) Gen.OtlpSchemaX.readerDefaults = otlp.msgs.map (·.name) := by
+  constructor <;> decide +kernel
+
+/-- **Id sizes are regenerated** (round 2): the `n` of every `Ty.id n` field of the schema is the `const <x>Size` of its Go customtype
+in `pdata/internal/data/{traceid,spanid,profileid}.go` (the translator also pins the straight-line code of their six methods and of
+`bytesid.go` to the shape `Ty.id` models: `Size`/`IsEmpty`/`MarshalTo`/`Unmarshal`/`MarshalJSON`/`UnmarshalJSON`, exit 2 otherwise);
+here: three id types, and every id field of the schema has one of their sizes. -/
+theorem C08_id_sizes_tie :
+    List.map (·.1) Gen.OtlpSchemaX.idTypes = ["data.ProfileID", "data.SpanID", "data.TraceID"] ∧
+    otlp.msgs.all (fun m => (fieldsOf m).all (fun f => match f.ty with
+      | .id n => (List.map (·.2) Gen.OtlpSchemaX.idTypes).contains n
+      | _ => true)) = true := by
+  constructor <;> decide +kernel
+
+
+set_option maxRecDepth 100000 in
+/-- **Per-package copies of the varint helpers** (round 2): every `*.pb.go` carries its own `encodeVarint<X>` / `sov<X>` /
+`soz<X>` / `skip<X>`; the model has ONE `varint` / `sov` (`C08_sov_formula`) / `skipLoop`.  The translator compares each copy,
+suffix renamed away, with the shape the model was written against (exit 2 otherwise) and lists the packages that passed; here:
+every message of the schema lives in such a package, and every listed package has a message.  (Dynamically: the
+`sizeboundary` block drives 2- and 3-byte length prefixes through a message of every package of every root.) -/
+theorem C08_pb_helpers_tie :
+    otlp.msgs.all (fun m => List.any Gen.OtlpSchemaX.pbHelperPkgs (fun p => (p ++ ".").toList.isPrefixOf m.name.toList)) = true ∧
+    List.all Gen.OtlpSchemaX.pbHelperPkgs (fun p => otlp.msgs.any (fun m => (p ++ ".").toList.isPrefixOf m.name.toList)) = true := by
+  constructor <;> decide +kernel
+
+
+/-- **The jsonpb configuration `toJ` models** (round 2): the `jsonpb.Marshaler{…}` literal of `pdata/internal/json/json.go`, regenerated —
+enums as numbers (`EnumsAsInts: true`), lowerCamel names (`OrigName` absent or false), defaults omitted (`EmitDefaults` absent or
+false), no indentation, no other field (an `AnyResolver`, say); `json.Marshal` is `marshaler.Marshal(out, pb)` (translator, exit 2). -/
+theorem C08_jsonpb_config_tie :
+    List.lookup "EnumsAsInts" Gen.OtlpSchemaX.jsonpbConfig = some "true" ∧
+    (List.lookup "OrigName" Gen.OtlpSchemaX.jsonpbConfig).getD "false" = "false" ∧
+    (List.lookup "EmitDefaults" Gen.OtlpSchemaX.jsonpbConfig).getD "false" = "false" ∧
+    (List.lookup "Indent" Gen.OtlpSchemaX.jsonpbConfig).getD "\"\"" = "\"\"" ∧
+    List.all Gen.OtlpSchemaX.jsonpbConfig (fun kv => ["EnumsAsInts", "OrigName", "EmitDefaults", "Indent"].contains kv.1) = true := by
+  decide +kernel
+
+
 /-! ## OBSERVATION about the bit-exact reading: `-0.0` in a plain proto3 double field comes back as `+0.0`
 
 Not a violation of the property: payload equality is Go's `==` / `reflect.DeepEqual`, under which `-0.0 == +0.0`, and proto3 does not
@@ -681,6 +969,52 @@ theorem C08_migrate_roots_tie : otlp.roots.all (fun rm => !rootHasDep otlp rm.2 
      migratesJson rm.1 == Gen.OtlpSchema.migratesJsonRoots.contains rm.1)) = true := by decide +kernel
 
 
+/-- steps of the entry point (root, op) in the regenerated table -/
+def entrySteps (eps : List (String × String × List String)) (root op : String) : Option (List String) :=
+  (eps.find? (fun e => e.1 == root && e.2.1 == op)).map (·.2.2)
+
+/-- the steps of a direct JSON decode entry point: iterator borrowed and returned, the message reader, the error test -/
+def jdecBase : List String := ["BorrowIterator", "ReturnIterator", "unmarshalJsoniter", "iter.Error"]
+
+/-- the pipeline `encode` / `size` / `decodeRoot` / `toJson` / `fromJsonRoot` assume for one root -/
+def entryOk (S : Schema) (eps : List (String × String × List String)) (rm : String × Nat) : Bool :=
+  let root := rm.1
+  let dep := rootHasDep S rm.2
+  let direct := fun (r : String) (st : List String) =>
+    (st == jdecBase || st == jdecBase ++ ["Migrate"]) && (!dep || ((st == jdecBase ++ ["Migrate"]) == migratesJson r))
+  entrySteps eps root "pbenc" == some ["Marshal"] &&
+  entrySteps eps root "jenc" == some ["json.Marshal"] &&
+  (match entrySteps eps root "size" with
+   | some st => st == ["Size"]
+   | none => true) &&
+  (match entrySteps eps root "pbdec" with
+   | some st => (st == ["Unmarshal"] || st == ["Unmarshal", "Migrate"]) &&
+                (!dep || ((st == ["Unmarshal", "Migrate"]) == migratesPb root))
+   | none => false) &&
+  (match entrySteps eps root "jdec" with
+   | some [d] =>   -- ExportRequest.UnmarshalJSON delegates to the JSONUnmarshaler of its payload: that one must be direct, and migrate alike
+     S.roots.any (fun pr => d == "delegate:" ++ pr.1 && migratesJson root == migratesJson pr.1 &&
+       (match entrySteps eps pr.1 "jdec" with
+        | some st => direct pr.1 st
+        | none => false))
+   | some st => direct root st
+   | none => false)
+
+set_option maxRecDepth 100000 in
+/-- **The glue between the modelled core and the public API, entry point by entry point** (round 2): for each of the 12 roots the
+translator lists the steps of `ProtoMarshaler.Marshal*` / `*Size` / `ProtoUnmarshaler.Unmarshal*` / `JSONMarshaler.Marshal*` /
+`JSONUnmarshaler.Unmarshal*` / `ExportRequest|ExportResponse.{Marshal,Unmarshal}{Proto,JSON}` over a closed vocabulary (an unknown
+call is `?name`).  Decided here: marshal = the generated `Marshal` alone (`encode`), size = `Size` alone (`size`; also every
+sub-message sizer), JSON marshal = `json.Marshal` alone (`toJson`), protobuf decode = `Unmarshal` then — exactly where
+`migratesPb` says — `otlp.Migrate*` (`decodeRoot`), JSON decode = borrow/return the iterator, the message reader, the `iter.Error`
+test, then — exactly where `migratesJson` says — `otlp.Migrate*` (`fromJsonRoot`), or a delegation to the payload's
+`JSONUnmarshaler` that migrates alike.  Subsumes the caller lists of `C08_migrate_roots_tie` and adds order and exclusivity. -/
+theorem C08_entry_points_tie :
+    otlp.roots.all (entryOk otlp Gen.OtlpSchemaX.entryPoints) = true ∧
+    List.all Gen.OtlpSchemaX.entryPoints (fun e => !("size:".toList.isPrefixOf e.2.1.toList) || e.2.2 == ["Size"]) = true := by
+  constructor <;> decide +kernel
+
+
 /-! ## JSON: whatever decodes successfully re-encodes to a fixed point (every document tree) -/
 
 set_option maxRecDepth 100000 in
@@ -692,7 +1026,7 @@ theorem C08_json_fix_ties : enumsOk otlp = true ∧ keysSymOk otlp = true ∧ de
 theorem C08_txt_out (ffmt : Nat → List Nat) (fparse : List Nat → Option Nat) (hlt : ∀ t n, fparse t = some n → n < 2 ^ 64) :
     TxtOut (mkTxtF ffmt fparse) where
   fparse_lt := hlt
-  unb64_bytes := b64dec_out
+  unb64_bytes := b64Read_out
   unhex_bytes := hexDec_out
 
 /-- **The JSON readers' results are canonical, for EVERY document tree**: a successful `fromJson` returns a decoder-shaped value
@@ -807,6 +1141,111 @@ theorem C08_apibuilt_example : ∃ m, otlp.roots.lookup "logsresp" = some m ∧
       · cases h3
     · cases h
   · cases h
+
+/-! ## end-to-end: every public entry point refines a small abstract codec specification (round 2)
+
+The property, stated once, abstractly — payloads `V`, protobuf bytes `B`, JSON documents `J` — and the theorem that each of the
+12 public entry points of OTLP (payloads, export requests incl. `otlp.Migrate*`, export responses), as modelled by `encode` /
+`decodeRoot` / `size` / `toJson` / `fromJsonRoot`, satisfies it.  The clauses of C08 are the fields of `CodecSpec.Holds`; the
+theorems above are their proofs. -/
+
+/-- one codec endpoint -/
+structure CodecSpec (V B J : Type) where
+  /-- payloads of the data model (what the public API can build) whose encoding fits a Go slice -/
+  ok : V → Prop
+  enc : V → B
+  dec : B → Option V
+  size : V → Nat
+  len : B → Nat
+  jenc : V → J
+  jdec : J → Option V
+  /-- JSON's representative of a payload (every NaN is `math.NaN()`; identity on NaN-free payloads) -/
+  jeq : V → V
+  /-- what the API observes of a decoded value (`-0.0` of a plain proto3 double reads as `+0.0`) -/
+  obs : V → V
+  /-- a decoded value whose re-encoding fits a Go slice -/
+  small : V → Prop
+
+/-- the property C08 for one endpoint -/
+structure CodecSpec.Holds {V B J : Type} (C : CodecSpec V B J) : Prop where
+  /-- decoding what the protobuf marshaler produced yields the original -/
+  lossless_pb : ∀ v, C.ok v → C.dec (C.enc v) = some v
+  /-- the reported size is the length of the encoding -/
+  size_exact : ∀ v, C.size v = C.len (C.enc v)
+  /-- decoding what the JSON marshaler produced yields the original (up to the NaN payload) -/
+  lossless_json : ∀ v, C.ok v → C.jdec (C.jenc v) = some (C.jeq v)
+  /-- the two encodings agree: protobuf of the JSON-decoded value = protobuf of the original -/
+  consistent : ∀ v, C.ok v → ∀ v', C.jdec (C.jenc v) = some v' → C.enc v' = C.enc (C.jeq v)
+  /-- whatever decodes successfully from ARBITRARY bytes re-encodes to a fixed point -/
+  fixpoint_pb : ∀ b w, C.dec b = some w → C.small w →
+    C.dec (C.enc w) = some (C.obs w) ∧ C.dec (C.enc (C.obs w)) = some (C.obs w)
+  /-- whatever decodes successfully from an ARBITRARY JSON document re-encodes to a fixed point -/
+  fixpoint_json : ∀ j w, C.jdec j = some w → C.jdec (C.jenc (C.jeq (C.obs w))) = some (C.jeq (C.obs w))
+
+/-- the model of the public entry point `root` (message `m`) of OTLP as a codec endpoint -/
+def otlpCodec (T : Txt) (root : String) (m : Nat) : CodecSpec Val Bytes Json where
+  ok v := ApiBuilt otlp m v ∧ (encode otlp m v).length < 2 ^ 63
+  enc := encode otlp m
+  dec := decodeRoot otlp otlpD root m
+  size := size otlp m
+  len := List.length
+  jenc := toJson otlp T m
+  jdec := fromJsonRoot otlp T otlpD root m
+  jeq := normV otlp (.slots (otlp.slots m))
+  obs := canon otlp (.slots (otlp.slots m))
+  small w := (encode otlp m w).length < 2 ^ 63
+
+/-- **Refinement.** Every public entry point of the regenerated OTLP schema satisfies the abstract specification, for every lawful
+text codec (the float pair being the only assumed part of it, `C08_txt_laws`): lossless protobuf, exact size, lossless JSON,
+consistency, and the fixed point of both decoders on arbitrary input — through `otlp.Migrate*` where the entry point calls it. -/
+theorem C08_refines_spec (T : Txt) (hT : TxtLaws T) (hTo : TxtOut T) (root : String) (m : Nat) (hroot : (root, m) ∈ otlp.roots) :
+    (otlpCodec T root m).Holds where
+  lossless_pb := fun v hv => (C08_wrappers_otlp_api T hT root m hroot v hv.1 hv.2).1
+  size_exact := fun v => C08_size otlp m v
+  lossless_json := fun v hv => (C08_wrappers_otlp_api T hT root m hroot v hv.1 hv.2).2
+  consistent := fun v hv v' h => by
+    have h2 := (C08_wrappers_otlp_api T hT root m hroot v hv.1 hv.2).2
+    simp only [otlpCodec] at h ⊢
+    rw [h2] at h
+    rw [← Option.some.inj h]
+  fixpoint_pb := fun b w hd hs => C08_total_fixpoint_root_otlp root m hroot b w hd hs
+  fixpoint_json := fun j w hd => (C08_json_fixpoint_root_otlp T hT hTo root m hroot j w hd).2
+
+/-- non-vacuity of the specification's `ok` for OTLP: the `ApiBuilt` payload of `C08_apibuilt_example` (an export response with a
+partial success) is an `ok` payload of the `logsresp` endpoint — its encoding is 8 bytes long -/
+example (T : Txt) : ∃ m v, otlp.roots.lookup "logsresp" = some m ∧ (otlpCodec T "logsresp" m).ok v := by
+  obtain ⟨m, hm, ha⟩ := C08_apibuilt_example
+  refine ⟨m, _, hm, ha, ?_⟩
+  have h2 : otlp.roots.lookup "logsresp" = some 2 := by decide +kernel
+  rw [h2] at hm
+  have hm' : m = 2 := (Option.some.inj hm).symm
+  subst hm'
+  have hs2 : otlp.slots 2 = [.one { num := 1, go := "PartialSuccess", json := "partialSuccess", orig := "partial_success", ty := .msg 0, card := .req }] := by
+    decide +kernel
+  have hs0 : otlp.slots 0 = [.one { num := 1, go := "RejectedLogRecords", json := "rejectedLogRecords", orig := "rejected_log_records", ty := .i64 },
+      .one { num := 2, go := "ErrorMessage", json := "errorMessage", orig := "error_message", ty := .string }] := by decide +kernel
+  rw [← C08_size]
+  simp [size, sz, hs2, hs0, leafSize, scalarSize, isZero, isScalar, wireType, sov]
+
+
+/-! ## with the concrete codecs ONLY the float pair is assumed (round 2, second item) -/
+
+/-- JSON fixed point through every public entry point, concrete decimal / hex / base64 codecs: assumptions = `FloatLaws` + float range -/
+theorem C08_json_fixpoint_root_otlp_concrete (ffmt : Nat → List Nat) (fparse : List Nat → Option Nat) (h : FloatLaws ffmt fparse)
+    (hlt : ∀ t n, fparse t = some n → n < 2 ^ 64) (root : String) (m : Nat) (hroot : (root, m) ∈ otlp.roots) (j : Json) (w : Val)
+    (hd : fromJsonRoot otlp (mkTxtF ffmt fparse) otlpD root m j = some w) :
+    fromJson otlp (mkTxtF ffmt fparse) otlpD m j = some w ∧
+    fromJsonRoot otlp (mkTxtF ffmt fparse) otlpD root m
+        (toJson otlp (mkTxtF ffmt fparse) m (normV otlp (.slots (otlp.slots m)) (canon otlp (.slots (otlp.slots m)) w)))
+      = some (normV otlp (.slots (otlp.slots m)) (canon otlp (.slots (otlp.slots m)) w)) :=
+  C08_json_fixpoint_root_otlp _ (C08_txt_laws ffmt fparse h) (C08_txt_out ffmt fparse hlt) root m hroot j w hd
+
+/-- the refinement theorem with the concrete codecs: every clause of the property for every entry point, float pair assumed only -/
+theorem C08_refines_spec_concrete (ffmt : Nat → List Nat) (fparse : List Nat → Option Nat) (h : FloatLaws ffmt fparse)
+    (hlt : ∀ t n, fparse t = some n → n < 2 ^ 64) (root : String) (m : Nat) (hroot : (root, m) ∈ otlp.roots) :
+    (otlpCodec (mkTxtF ffmt fparse) root m).Holds :=
+  C08_refines_spec _ (C08_txt_laws ffmt fparse h) (C08_txt_out ffmt fparse hlt) root m hroot
+
 
 /-! ## non-vacuity: a small schema using every slot discipline, a conforming value with extreme numerics -/
 def S0 : Schema := { msgs := [
